@@ -18,7 +18,7 @@ PROGRAMS = [
     'var x = function(y) { try { throw y; } catch (e) { for (var i = 0; i < 3; i++) { x(i); } } finally { while (0); } };',
     'a = [, , 1, , ]; s = "x\\\ny" + \'p\\\r\nq\' + /r\\/e/g.source + 0x1F + 1.50e+3;',
 ]
-CONFIGS = ['pretty', 'minobf', 'obfindent', 'dropsemi', 'minobfglobals']
+CONFIGS = ['pretty', 'minobf', 'obfindent', 'dropsemi', 'minobfglobals', 'exampleindent']
 
 
 def big_scope_program(n=300):
@@ -37,6 +37,11 @@ def mk(cfg):
         return u.minify_printer(obfuscate=True, obfuscate_globals=True, shadow_funcname=True)
     if cfg == 'dropsemi':
         return u.minify_printer(drop_semi=True)
+    if cfg == 'exampleindent':
+        # the stand-alone example rule set of handlers.indentation (what the repository's own unparser tests combine)
+        from calmjs.parse.handlers.indentation import indent as example_indent
+        from calmjs.parse.handlers.core import default_rules
+        return u.Unparser(rules=(default_rules, example_indent('  ')))
     return u.Unparser(rules=(rules.obfuscate(obfuscate_globals=True), rules.indent(indent_str='\t')))
 
 
